@@ -1422,7 +1422,12 @@ def setup(tier, seed, base):
     B['env'], B['home'] = env, env.home
     atexit.register(_cleanup_parent)
     try:
-        env.import_key(io.BytesIO(M['keys']['secret']))
+        # fixture set-up must not depend on the code under test: the secret key goes into the fixture home
+        # through a gpg started by the harness with GNUPGHOME given explicitly
+        pr = _raw_gpg(env.home, ['--import'], M['keys']['secret'])
+        if pr.returncode != 0:
+            raise RuntimeError('fixture key import failed: ' + pr.stderr.decode('utf8', 'replace'))
+        _set_ownertrust(env.home, 6)
         bases = []
         for tmpl in B3_BODIES:
             bases.append(('signed-here', _clearsign(env.home, tmpl.format(n=B3_NAMES[seed % len(B3_NAMES)]))))
